@@ -787,6 +787,14 @@ impl AExec {
                 self.slots.insert(*slot, ASlot::W(h));
                 Ok(Out::Unit)
             }
+            Op::HRead(slot, n) if *n == READ_TO_END => match self.slots.get_mut(slot) {
+                Some(ASlot::R(h)) => {
+                    let mut buf = Vec::new();
+                    h.read_to_end(&mut buf).await.map_err(|e| io_err_info(&e))?;
+                    Ok(Out::Read(buf))
+                }
+                _ => Ok(Out::Unit),
+            },
             Op::HRead(slot, n) => match self.slots.get_mut(slot) {
                 Some(ASlot::R(h)) => {
                     // fill the buffer or reach EOF: short reads are legal, the data is compared
